@@ -10,34 +10,45 @@ inductive ArgParent where
   | directive (name : Name)
   deriving Repr, Inhabited
 
+abbrev KaSlot := Option (ArgParent × List InputValueDef)     -- current_known_arguments
+
+/-- `enter_directive`: the slot becomes the directive's declaration, or empty when unknown -/
+def dirSlot (s : Schema) (dir : Directive) : KaSlot :=
+  match s.directiveByName dir.name with
+  | some dd => some (.directive dd.name, dd.args)
+  | none => none
+
+/-- `enter_field`: the slot becomes the field's declaration on the parent type, or empty -/
+def fieldSlot (parent : Option TypeDef) (f : FieldNode) : KaSlot :=
+  match parent with
+  | some p =>
+    (match p.fieldByName f.name with
+     | some fd => some (.field fd.name p.name, fd.args)
+     | none => none)
+  | none => none
+
+def unknownArgMsg (p : ArgParent) (a : Name) : Msg :=
+  match p with
+  | .field fn tn => .unknownArgOnField a tn fn
+  | .directive dn => .unknownArgOnDirective a dn
+
+/-- `enter_argument`: check one argument against the slot -/
+def kaArgCheck (slot : KaSlot) (a : Arg) : List Err :=
+  match slot with
+  | some (p, defs) =>
+    if !defs.any (fun d => d.name == a.1) then [⟨.knownArgumentNames, [], unknownArgMsg p a.1⟩] else []
+  | none => []
+
 def knownArgumentNames : Rule where
-  σ := Option (ArgParent × List InputValueDef)     -- current_known_arguments
+  σ := KaSlot
   init := none
   on := fun s _ slot e =>
     match e.1 with
-    | .enter (.directive dir) =>
-      (match s.directiveByName dir.name with
-       | some dd => (some (.directive dd.name, dd.args), [])
-       | none => (none, []))
+    | .enter (.directive dir) => (dirSlot s dir, [])
     | .leave (.directive _) => (none, [])
-    | .enter (.field f) =>
-      (match e.2.parent with
-       | some parent =>
-         (match parent.fieldByName f.name with
-          | some fd => (some (.field fd.name parent.name, fd.args), [])
-          | none => (none, []))
-       | none => (none, []))
+    | .enter (.field f) => (fieldSlot e.2.parent f, [])
     | .leave (.field _) => (none, [])
-    | .enter (.argument a) =>
-      (match slot with
-       | some (p, defs) =>
-         if !defs.any (fun d => d.name == a.1) then
-           (slot, [⟨.knownArgumentNames, [],
-             match p with
-             | .field fn tn => .unknownArgOnField a.1 tn fn
-             | .directive dn => .unknownArgOnDirective a.1 dn⟩])
-         else (slot, [])
-       | none => (slot, []))
+    | .enter (.argument a) => (slot, kaArgCheck slot a)
     | _ => (slot, [])
 
 /-- `collect_from_arguments` + the report loop: one error per argument name used more than once,
